@@ -255,7 +255,7 @@ func (d *driver) writeEvidence(t0 time.Time, nviol int, known []string) {
 		"coverage":    cov,
 		"assumptions": []string{
 			"search over seeds, not proof: a clean batch is evidence only",
-			"goroutines can be pre-empted at lock acquisitions, multi-way selects, reflect.Select, simulated network writes, dials and harness yields, not between arbitrary statements",
+			"goroutines can be pre-empted at lock acquisitions, multi-way selects, reflect.Select, goroutine starts, simulated network writes, dials and harness yields in every run, and before every statement of a hashed subset of the library's functions in one run out of six (parks of kind stmt); never inside a statement, inside gorilla/websocket, net/http or the standard library",
 			"the simulated transport has TCP semantics (no loss/reordering/duplication on a live stream)",
 			"stretches between two parks of different goroutines released in one step are assumed to commute (measured by the determinism self-test)",
 		},
